@@ -294,6 +294,7 @@ def snapshot(server, errs, docpool, nbpool):
             both.append([n, k, None if nb is None else _canon_nb(conv, nb)])
     snap["bynb"] = bynb
     snap["both"] = both
+    snap["neither"] = None if ws.get_notebook_document() is None else "not-none"
     return snap
 
 
@@ -544,6 +545,7 @@ class _Tok:
         s["cell"] = [[k, self.int(), self.nb()] if self.int() else [k, None] for k in docpool]
         s["bynb"] = [[n, self.opt(self.nb)] for n in nbpool]
         s["both"] = [[n, k, self.opt(self.nb)] for n in nbpool for k in docpool]
+        s["neither"] = None          # get_notebook_document() without arguments (C10_public_api)
         return s
 
 
@@ -821,7 +823,14 @@ def exhaustive(maxlen):
 class C10(core.Property):
     id = "C10"
     modules = ["Proofs.WorkspaceProofs", "Props.C10"]
-    obligations = []
+    obligations = ["op_refines_did_open", "op_refines_did_change", "op_refines_did_close", "op_refines_nb_open",
+                   "op_refines_nb_change", "op_refines_nb_close", "op_refines_folders", "init_refines", "op_refines",
+                   "fold_refines", "wf_prefix", "data_splice_commute", "folders_interleaved", "R_text_content",
+                   "index_consistent", "wf_no_error", "closed_absent", "get_after_close_is_disk",
+                   "closed_cell_absent", "did_change_selects", "session_is_doc_run",
+                   "C10", "C10_prefix", "C10_public_api", "C10_closed", "C10_index", "C10_text_is_C04",
+                   "C10_order_open_cell_data", "C10_order_open_folders", "C10_unopened",
+                   "C10_empty_metadata_replaces", "C10_nonvacuous"]
     coq_targets = ["Props/C10.vo", "Extract/ExtractC10.vo"]
     rule = ("a case is one history of synchronisation notifications into one server, observed after every "
             "message; non-trivial = the history touches at least 2 URIs and contains a close (document, cell or "
@@ -846,11 +855,11 @@ class C10(core.Property):
         rng = chk.rng
         cases.extend(exhaustive(3 if chk.quick else 4))
         self.exhaustive = True
-        for _ in range(chk.n(260, 2500)):        # well-formed histories
+        for _ in range(chk.n(600, 2500)):        # well-formed histories
             nops = rng.choice([3, 6, 10, 20, 40]) if chk.quick else rng.choice([5, 10, 20, 40, 80, 200])
             via = rng.choice(["frames"] * 7 + ["async", "async", "sync"])
             cases.append(random_history(rng, nops, 0.0, via))
-        for _ in range(chk.n(140, 1500)):        # with ill-formed notifications in between
+        for _ in range(chk.n(300, 1500)):        # with ill-formed notifications in between
             nops = rng.choice([2, 4, 8, 16, 30])
             via = rng.choice(["frames"] * 8 + ["async", "sync"])
             cases.append(random_history(rng, nops, rng.choice([0.1, 0.3, 1.0]), via))
@@ -924,6 +933,77 @@ class C10(core.Property):
         cases = exhaustive(3)
         res = core.evaluate(self, chk, cases)
         return [r for r in res if r["verdict"] == "violation"][:1]
+
+    def extra_checks(self, chk):
+        """thorough tier: the compiled theory of Props/C10 re-checked by the independent checker"""
+        self.extra_coverage = {"independent_copy_probe": "every notebookDocument/didOpen of every case: the params "
+                               "object is mutated by a user handler before the snapshot",
+                               "disk_fallback": "every snapshot reads get_text_document for every uri of the case "
+                               "(+1 never mentioned); uris that are not open are backed by files under work/C10/disk"}
+        # extraction + driver cross-check: the history of Props/C10.v C10_nonvacuous, whose values the
+        # kernel computed by vm_compute, through the extracted binary
+        viol = []
+        cases = [c for c in json.load(open(os.path.join(core.ROOT, "corpus", "C10", "witnesses.json")))
+                 if c.get("note") == "Props/C10.v C10_nonvacuous"]
+        m = self.model_output(cases[0], core.run_driver("C10", [self.model_input(cases[0])])[0])
+        for which in ("M", "S"):
+            s4, s7 = m[which][4], m[which][7]
+            got = [s4["nbs"], [d for d in s4["docs"] if d[0] in (1, 11)], s7["docs"], s7["nbs"], s7["folders"],
+                   [g for g in s7["get"] if g[0] in (1, 11, 12)], [c for c in s7["cell"] if c[0] == 13], s7["errs"], m["guard"]]
+            want = [[[20, [2, 0, 0, [[1, 11, 7, 1], [2, 13, None, None]]]]],
+                    [[1, [90, 97, 10, 88, 89], 2, 3], [11, [99, 33], 6, 1]], [[13, [101, 102], 5, 1]], [],
+                    [[1, 5], [2, 6]], [[1, "disk"], [11, "disk"], [12, "disk"]], [[13, None]], 0, True]
+            if got != want:
+                viol.append({"case": cases[0], "impl": got, "S": want, "verdict": "violation",
+                             "broken": f"extracted driver ({which}) disagrees with vm_compute (C10_nonvacuous)",
+                             "suffix": "no-failing-input-found"})
+        self.extra_coverage["driver_sanity"] = "C10_nonvacuous through the extracted binary: " + ("ok" if not viol else "MISMATCH")
+        if chk.quick:
+            return viol
+        self._anchored_coverage(chk)
+        r = core.sh("timeout 900 coqchk -silent -o -Q . Pygls Pygls.Props.C10", cwd=core.COQ, timeout=1000)
+        out = r.stdout + r.stderr
+        ok = r.returncode == 0 and "Axioms: <none>" in " ".join(out.split())
+        self.extra_coverage["coqchk"] = "ok, Axioms: <none>" if ok else out[-800:]
+        if ok:
+            return viol
+        return viol + [{"case": None, "impl": None, "S": "coqchk -o Pygls.Props.C10 succeeds with no axioms",
+                        "verdict": "violation", "broken": "coqchk", "log": out[-1500:], "suffix": "no-failing-input-found"}]
+
+    def _anchored_coverage(self, chk):
+        """which anchored lines (properties.jsonl anchors.mechanism[].where, located by function name so
+        that the ranges follow the file) the generated cases of the quick tier execute"""
+        try:
+            import ast, coverage
+            from pygls.workspace import workspace as wmod
+            from pygls.protocol import language_server as lmod
+            want = {wmod.__file__: {"get_text_document", "get_notebook_document", "put_notebook_document",
+                                    "put_text_document", "remove_notebook_document", "remove_text_document",
+                                    "remove_folder", "add_folder", "update_notebook_document", "update_text_document"},
+                    lmod.__file__: {"lsp_text_document__did_change", "lsp_text_document__did_close",
+                                    "lsp_text_document__did_open", "lsp_notebook_document__did_open",
+                                    "lsp_notebook_document__did_change", "lsp_notebook_document__did_close",
+                                    "lsp_workspace__did_change_workspace_folders"}}
+            cov = coverage.Coverage(include=list(want), data_file=None)
+            sub = core.Chk(self, "quick", chk.seed)
+            cases = self.generate(sub)
+            cov.start()
+            try:
+                _run_chunk(cases)
+            finally:
+                cov.stop()
+            total, missed = 0, []
+            for fn, names in want.items():
+                ranges = [(n.body[0].lineno, n.end_lineno) for n in ast.walk(ast.parse(open(fn).read()))
+                          if isinstance(n, ast.FunctionDef) and n.name in names]
+                _, stmts, _, missing, _ = cov.analysis2(fn)
+                inr = lambda k: any(a <= k <= b for a, b in ranges)
+                total += sum(1 for k in stmts if inr(k))
+                missed += [f"{os.path.basename(fn)}:{k}" for k in missing if inr(k)]
+            self.extra_coverage.update({"anchored_lines": total, "anchored_lines_executed": total - len(missed),
+                                        "anchored_lines_never_executed": missed})
+        except Exception as ex:
+            chk.notes.append("anchored-line coverage not measured: " + repr(ex))
 
     def distribution(self, cases):
         d = {}
